@@ -8,10 +8,13 @@
 #![recursion_limit = "512"]
 mod c10;
 mod c18;
+mod c20;
 mod corpus;
+mod e2;
 mod exec;
 mod gen;
 mod oracle;
+mod workload;
 
 use c10::{Replay, ScenarioReport};
 use exec::Scratch;
@@ -66,7 +69,7 @@ pub fn seed_from(args: &Args) -> u64 {
     std::env::var("VERIF_SEED").ok().and_then(|s| s.parse().ok()).unwrap_or(20260925)
 }
 
-fn harness_error(msg: &str) -> ! {
+pub fn harness_error(msg: &str) -> ! {
     eprintln!("HARNESS-ERROR: {msg}");
     std::process::exit(2);
 }
@@ -82,7 +85,10 @@ fn main() {
         "c10" => c10_parent(&args),
         "c10-worker" => c10_worker(&args),
         "c10-replay" => c10_replay(&args),
-        "c18-inproc" => c18::inproc(&args),
+        "c18" => c18::main(&args),
+        "c18-replay" => c18::replay(&args),
+        "c20" => c20::main(&args),
+        "c20-replay" => c20::replay(&args),
         other => harness_error(&format!("unknown subcommand {other}")),
     }
 }
@@ -191,16 +197,16 @@ struct KnownFindings {
 }
 
 #[derive(serde::Deserialize)]
-struct KnownFinding {
-    property: String,
+pub struct KnownFinding {
+    pub property: String,
     /// violation class the finding belongs to
-    class: String,
+    pub class: String,
     /// substring that must occur in the violation detail
-    detail_contains: String,
-    what: String,
+    pub detail_contains: String,
+    pub what: String,
 }
 
-fn load_known() -> Vec<KnownFinding> {
+pub fn load_known() -> Vec<KnownFinding> {
     let p = verif_home().join("known_findings.json");
     match std::fs::read_to_string(&p) {
         Ok(s) => match serde_json::from_str::<KnownFindings>(&s) {
